@@ -372,3 +372,49 @@ func VF_C06_GrowUpdateFullPage() {
 	vf.Assert(len(got2) == 4, "the new row is there next to the old ones")
 	vf.Cover("c06.growupdate")
 }
+
+// INSERT with the column list written in any order: values go to the columns they are written for
+func VF_C06_InsertColumnOrder() {
+	db := sysx.Open("vfc06", 32)
+	db.CreateTable("t1", []sysx.ColDef{{"a", types.Integer, index_constants.IndexKindSkipList}, {"b", types.Integer, index_constants.IndexKindInvalid}, {"tag", types.Integer, index_constants.IndexKindInvalid}})
+	perms := [][]int{{0, 1, 2}, {0, 2, 1}, {1, 0, 2}, {1, 2, 0}, {2, 0, 1}, {2, 1, 0}}
+	p := perms[vf.Choose(6)]
+	names := []string{"a", "b", "tag"}
+	vals := []int32{vf.I32(), vf.I32(), vf.I32()}
+	for _, v := range vals {
+		vf.Assume(v != 2147483647 && v != -2147483648)
+	}
+	var cols []string
+	var vs []types.Value
+	for _, c := range p {
+		cols = append(cols, names[c])
+		vs = append(vs, types.NewInteger(vals[c]))
+	}
+	vf.Note("column-list", cols[0]+","+cols[1]+","+cols[2])
+	_, _, ab := db.Auto(sysx.Insert("t1", cols, vs))
+	vf.Assert(!ab, "insert is not aborted")
+	dmlAudit(db, []drow{{vals[0], vals[1], vals[2]}}, "after INSERT with a permuted column list")
+	vf.Cover("c06.insert.order")
+}
+
+// UPDATE with two SET clauses written in either order
+func VF_C06_UpdateTwoColumns() {
+	db, rows := dmlSetup()
+	k := pickConj(2, 1)
+	na, nb := vf.I32(), vf.I32()
+	vf.Assume(na != 2147483647 && na != -2147483648 && nb != 2147483647 && nb != -2147483648)
+	cols, vs := []string{"a", "b"}, []types.Value{types.NewInteger(na), types.NewInteger(nb)}
+	if vf.Choose(2) == 1 {
+		cols, vs = []string{"b", "a"}, []types.Value{types.NewInteger(nb), types.NewInteger(na)}
+		vf.Note("set-order", "b,a")
+	}
+	_, _, ab := db.Auto(sysx.Update("t1", cols, vs, k.expr()))
+	vf.Assert(!ab, "update of a lone transaction is not aborted")
+	for i := range rows {
+		if k.ref(rows[i].a, rows[i].b) {
+			rows[i].a, rows[i].b = na, nb
+			vf.Cover("c06.update2.match")
+		}
+	}
+	dmlAudit(db, rows, "after UPDATE SET of two columns")
+}
